@@ -44,6 +44,15 @@ Example C08_delivery_instance_intermediate :
     Some {| d_mode := Some Intermediate; d_msgs := [[9; 8; 7; 6]; []]; d_end := EEof |}.
 Proof. vm_compute. reflexivity. Qed.
 
+(* Writer and reader together: what mode.New + WriteMsg* put on the wire comes out of Detect + ReadMsg*
+   on the other side unchanged, under every segmentation. *)
+Theorem C08_end_to_end : forall v msgs, Forall (carriable v) msgs ->
+  exists s, write_stream v msgs = Ok s /\
+    forall chunks, concat chunks = s ->
+      read_stream chunks = Some {| d_mode := Some v; d_msgs := msgs; d_end := EEof |}.
+Proof. exact end_to_end. Qed.
+Print Assumptions C08_end_to_end.
+
 (* The reader is a function of the concatenation only - for ANY byte stream, well-formed or not
    (truncated frames, garbage, wrong announcement): two segmentations of the same bytes give the
    same detected mode, the same messages and the same final error kind. *)
